@@ -4,4 +4,4 @@ Require Import ExtrOcamlBasic.
 From LLB Require Import Base.Bytes Parse.MakeDeps Parse.DepInfo Parse.DepsGlue.
 Extraction "extracted/Model_parse.ml" md_parse md_write md_write_eol md_write_rules md_deps md_has_error wf_path wf_target
   di_parse di_write di_inputs di_has_error wf_operand
-  is_absolute path_append make_absolute glue_path process_discovered command_result.
+  is_absolute path_append make_absolute glue_path process_discovered process_depinfo_v0 command_result.
